@@ -21,10 +21,10 @@ Decode(doms, idx, acc) ==
   IF Len(acc) = Len(doms) THEN acc
   ELSE LET d == doms[Len(acc) + 1] IN Decode(doms, idx \div Len(d), Append(acc, d[(idx % Len(d)) + 1]))
 
-Doms(c) == c.argdom \o <<c.opqdom, c.stdom>>
+Doms(c) == c.argdom \o <<c.opqdom, c.stdom, c.descdom>>
 NOracles(c) == ProdLen(Doms(c), 1)
 OracleAt(c, i) == LET t == Decode(Doms(c), i - 1, <<>>) IN
-                  [args |-> SubSeq(t, 1, Len(c.argdom)), opq |-> t[Len(t) - 1], st |-> t[Len(t)]]
+                  [args |-> SubSeq(t, 1, Len(c.argdom)), opq |-> t[Len(t) - 2], st |-> t[Len(t) - 1], desc |-> t[Len(t)]]
 
 RegKeys(c) == {<<c.regkeys[i][1], c.regkeys[i][2]>> : i \in DOMAIN c.regkeys}
 Accs(c) == {c.accs[i] : i \in DOMAIN c.accs}
@@ -54,7 +54,7 @@ Switch ==
 
 Finish ==
   /\ side = "B" /\ m.status # "run"
-  /\ LET v == Judge(Batch.contract, C, resA, m) IN
+  /\ LET v == Judge(Batch.contract, C, Orc, resA, m) IN
      /\ verdict' = v
      /\ PrintT(<<"VERDICT", tid, oi, v, Len(resA.log), Len(m.log)>>)
   /\ side' = "end"
